@@ -344,7 +344,7 @@ def gen_reg_case(rng: common.Rng, algo: str | None = None, kernel: str | None = 
             case["samples"] = keep
     # query points: dyadic, away from the learning points
     case["q"] = gen_queries(rng, pts, din, rng.pick([2, 3]))
-    gen_history(rng, case, pts, din, n)
+    gen_history(rng, case, pts, din, len(pts))
     gen_sur(rng, case)
     return case
 
@@ -988,14 +988,18 @@ def check_surrogate(case, model, Q, sizes, tag, has_jac, count, kept=None, pi: i
         label = sur_label(v) + ("" if item["born"] == pi else "-created-before-retraining")
         if item["born"] != pi:
             count("surrogate-kept-after-retraining")
-        sub = observe_surrogate(disc, ref, v, Q, sizes, tag, has_jac, count, label, corr, case, fd=item["own_model"] or item["born"] != pi)
+        sub = observe_surrogate(
+            disc, ref, v, Q, sizes, tag, has_jac, count, label, corr, case,
+            fd=item["own_model"] or item["born"] != pi,
+            defaults=item["born"] == pi and not v.get("in"),  # (a discipline executed before keeps its cached outputs)
+        )
         bad += sub
         if sub:
             break
     return bad
 
 
-def observe_surrogate(disc, ref, v, Q, sizes, tag, has_jac, count, label, corr, case, fd: bool) -> list[tuple[str, str]]:
+def observe_surrogate(disc, ref, v, Q, sizes, tag, has_jac, count, label, corr, case, fd: bool, defaults: bool = False) -> list[tuple[str, str]]:
     bad: list[tuple[str, str]] = []
     m_in, m_out = list(ref.input_names), list(ref.output_names)
     ins = list(v.get("in") or m_in)
@@ -1065,16 +1069,16 @@ def observe_surrogate(disc, ref, v, Q, sizes, tag, has_jac, count, label, corr, 
                 ys = [np.asarray(out[o], dtype=float) for o in outs]
                 blocks = None if jac is None else {(n, m): np.asarray(jac[o][i], dtype=float) for n, o in enumerate(outs) for m, i in enumerate(ins)}
                 corr.add(line, ("sur", ys, blocks, C.TWO40), {"stream": "regressor", "case": case, "what": "surrogate-" + label, "deep": True})
-        if not v.get("in") and not v.get("out") and not v.get("named"):
-            # default input data: the centre of the learning input space of the model
-            centre = {n: np.asarray(a, dtype=float).copy() for n, a in ref.input_space_center.items()}
+        if defaults:
+            # execute() without input data: the prediction of the model at the default inputs of the discipline
+            centre = {n: np.asarray(disc.io.input_grammar.defaults[n], dtype=float).copy() for n in m_in}
             out = disc.execute()
             pd = ref.predict(centre)
             count("surrogate-execute-defaults")
             for o in outs:
                 a, b = np.asarray(out[o], dtype=float), np.asarray(pd[o], dtype=float).flatten()
                 if a.shape != b.shape or not L.finite(a) or not np.array_equal(a, b):
-                    bad.append((f"surrogate-execute:{tag}", f"SurrogateDiscipline.execute() with the default inputs (centre of the learning inputs) returned {o}={a.tolist()}, the model predicts {b.tolist()} there"))
+                    bad.append((f"surrogate-execute:{tag}", f"SurrogateDiscipline ({label}) .execute() with its default inputs {centre} returned {o}={a.tolist()}, the model predicts {b.tolist()} there"))
                     return bad
     except Exception as e:  # noqa: BLE001
         bad.append((f"crash-surrogate:{tag}:{type(e).__name__}", f"SurrogateDiscipline ({label}) execute/linearize raised {type(e).__name__}: {str(e)[:200]}"))
@@ -1392,7 +1396,11 @@ def check_tr(case: dict[str, Any], res: Result | None = None, corr: C.Corr | Non
                     Ji = t.compute_jacobian_inverse(np.asarray(z).copy()) if has_jac else None
                     bound = C.TWO30 if "PCA" in spec_names(spec) else C.TWO40
                     line = f"tr pipe={pipe} D={';'.join(','.join(r) for r in case['X'])} x={C.rvec(x)}"
-                    corr.add(line, C.tr_compare(z, xb, J, Ji, bound), {"stream": "transformer", "case": case, "what": tr_tag_of(spec)})
+                    corr.add(
+                        line,
+                        ("tr", np.asarray(z), None if xb is None else np.asarray(xb), None if J is None else np.asarray(J), None if Ji is None else np.asarray(Ji), bound),
+                        {"stream": "transformer", "case": case, "what": tr_tag_of(spec)},
+                    )
         except Exception as e:  # noqa: BLE001
             if res is not None:
                 res.notes.append(f"could not build the protocol line of a transformer case: {e!r}")
@@ -1471,16 +1479,101 @@ def load_corpus() -> list[dict[str, Any]]:
     return out
 
 
-def run_reg_cases(res: Result, cases, in_scope: bool = True, corr: C.Corr | None = None) -> None:
-    for case in cases:
+_POOL: Any = None
+_USE_DRIVER = True
+
+
+def n_workers(thorough: bool) -> int:
+    import os
+
+    try:
+        return max(1, int(os.environ.get("C18_WORKERS", "") or (12 if thorough else 4)))
+    except ValueError:
+        return 4
+
+
+def get_pool(thorough: bool):
+    """Worker processes for the implementation side (the cases are generated by the main process from ctx.rng and the
+    results are merged in generation order: nothing depends on the scheduling)."""
+    global _POOL
+    if _POOL is None and n_workers(thorough) > 1:
+        import multiprocessing as mp
+
+        _POOL = mp.get_context("fork").Pool(processes=n_workers(thorough), maxtasksperchild=40)
+    return _POOL
+
+
+def close_pool() -> None:
+    global _POOL
+    if _POOL is not None:
+        _POOL.terminate()
+        _POOL = None
+
+
+def _reg_worker(case):
+    rec = Rec()
+    corr = C.Corr()
+    try:
+        bad = check_reg(case, rec, corr=corr if _USE_DRIVER else None)
+    except Exception as e:  # noqa: BLE001
+        if is_fit_failure(e):
+            rec.count(f"fit-failed-skipped:{case.get('algo')}")
+            return [], rec.histogram, rec.notes, []
+        import traceback
+
+        return None, repr(e), traceback.format_exc(), []
+    return bad, rec.histogram, rec.notes, corr.items
+
+
+def _tr_worker(case):
+    rec = Rec()
+    corr = C.Corr()
+    try:
+        bad = check_tr(case, rec, corr=corr if _USE_DRIVER else None)
+    except Exception as e:  # noqa: BLE001
+        if is_fit_failure(e):
+            rec.count("fit-failed-skipped:" + tr_tag_of(case["spec"]))
+            return [], rec.histogram, rec.notes, []
+        import traceback
+
+        return None, repr(e), traceback.format_exc(), []
+    return bad, rec.histogram, rec.notes, corr.items
+
+
+def _evaluate(worker, cases, pool):
+    if pool is None or len(cases) < 4:
+        return [worker(c) for c in cases]
+    return pool.map(worker, cases, chunksize=1)
+
+
+def _merge(res: Result, out, corr: C.Corr | None):
+    bad, hist, notes, items = out
+    if bad is None:
+        raise RuntimeError(f"internal error of the C18 harness in a case: {hist}\n{notes}")
+    for k, n in hist.items():
+        res.count(k, n)
+    for t in notes[:3]:
+        if len(res.notes) < 40:
+            res.notes.append(t)
+    if corr is not None:
+        corr.extend(items)
+    return bad
+
+
+def run_reg_cases(res: Result, cases, in_scope: bool = True, corr: C.Corr | None = None, pool=None) -> None:
+    for case, out in zip(cases, _evaluate(_reg_worker, cases, pool)):
         res.evaluations += 1
         tag = reg_tag(case)
         res.count("reg:" + tag)
         res.count("reg-tr:" + tr_tag(case))
         res.count(f"reg-dims:{sum(s for _, s in case['in'])}x{sum(s for _, s in case['out'])}")
-        bad = check_reg(case, res, corr=corr)
-        res.nontrivial(json.dumps({k: case[k] for k in ("algo", "opts", "in", "out", "tr", "X")}, sort_keys=True, default=str))
-        res.sample({"stream": "regressor", "algo": tag, "transformers": tr_tag(case), "n_learn": len(case["X"]), "violations": [k for k, _ in bad]})
+        res.count(f"reg-variables:{len(case['in'])}in-{len(case['out'])}out")
+        res.count(f"reg-trainings:{1 + len(case.get('history') or [])}")
+        for v in case.get("sur") or []:
+            res.count("reg-surrogate-names:" + sur_label(v))
+        bad = _merge(res, out, corr)
+        res.nontrivial(json.dumps({k: case.get(k) for k in ("algo", "opts", "in", "out", "tr", "X", "history", "sur")}, sort_keys=True, default=str))
+        res.sample({"stream": "regressor", "algo": tag, "transformers": tr_tag(case), "n_learn": len(case["X"]), "trainings": 1 + len(case.get("history") or []), "violations": [k for k, _ in bad]})
         for key, msg in bad:
             if not in_scope:
                 res.count("probe-disagreement")
@@ -1495,12 +1588,12 @@ def run_reg_cases(res: Result, cases, in_scope: bool = True, corr: C.Corr | None
             res.traces_validated += 1
 
 
-def run_tr_cases(res: Result, cases, corr: C.Corr | None = None) -> None:
-    for case in cases:
+def run_tr_cases(res: Result, cases, corr: C.Corr | None = None, pool=None) -> None:
+    for case, out in zip(cases, _evaluate(_tr_worker, cases, pool)):
         res.evaluations += 1
         tag = tr_tag_of(case["spec"])
         res.count("tr:" + tag)
-        bad = check_tr(case, res, corr=corr)
+        bad = _merge(res, out, corr)
         res.nontrivial(json.dumps(case, sort_keys=True))
         res.sample({"stream": "transformer", "spec": case["spec"], "n_fit": len(case["X"]), "violations": [k for k, _ in bad]})
         for key, msg in bad:
@@ -1615,11 +1708,11 @@ def run_kernel_stream(res: Result, rng: common.Rng, corr: C.Corr, n_per_kernel: 
             )
 
 
-def search_reg_failure(res: Result, rng: common.Rng, algo: str, kernel: str | None, n: int, near: dict | None = None) -> bool:
+def search_reg_failure(res: Result, rng: common.Rng, algo: str, kernel: str | None, n: int, near: dict | None = None, deep: bool = False) -> bool:
     """Failing-input search: neighbours of a case, then fresh cases biased to the algorithm/kernel involved."""
     cands = []
     if near is not None:
-        cands += list(reg_candidates(near))[:25]
+        cands += [near, *list(reg_candidates(near))[:25]]
     for _ in range(n):
         c = gen_reg_case(rng, algo, kernel=kernel)
         if kernel:
@@ -1627,7 +1720,7 @@ def search_reg_failure(res: Result, rng: common.Rng, algo: str, kernel: str | No
         cands.append(c)
     for cand in cands:
         try:
-            bad = check_reg(cand, None, deep=False)
+            bad = check_reg(cand, None, deep=deep)
         except Exception:  # noqa: BLE001
             continue
         res.evaluations += 1
@@ -1706,6 +1799,15 @@ def run(ctx) -> Result:
     corr = C.Corr()
     build_err = C.ensure_gen_built()
     use_driver = build_err is None
+    global _USE_DRIVER
+    _USE_DRIVER = use_driver
+    try:
+        return _run_streams(ctx, res, rng, corr, use_driver, build_err)
+    finally:
+        close_pool()
+
+
+def _run_streams(ctx, res: Result, rng: common.Rng, corr: C.Corr, use_driver: bool, build_err) -> Result:
     if not use_driver:
         res.notes.append("the generated kernel module does not build; driver-based correspondence skipped: " + build_err[-400:])
     audit_failed = ctx.audit is not None and not ctx.audit.ok
@@ -1718,7 +1820,7 @@ def run(ctx) -> Result:
             suspects.add(c["kernel"])
             return search_reg_failure(res, rng, "RBFRegressor", c["kernel"], 40)
         if c.get("stream") == "regressor":
-            return search_reg_failure(res, rng, c["case"]["algo"], c["case"].get("opts", {}).get("function"), 30, near=c["case"])
+            return search_reg_failure(res, rng, c["case"]["algo"], c["case"].get("opts", {}).get("function"), 30, near=c["case"], deep=bool(c.get("deep")))
         if c.get("stream") == "transformer":
             return search_tr_failure(res, rng, c["case"])
         return False
@@ -1745,7 +1847,11 @@ def run(ctx) -> Result:
         must.append(gen_reg_case(rng, "RBFRegressor", kernel=k))
     for a in sorted(set(REG_ALGOS)):
         must.append(gen_reg_case(rng, a))
-    run_reg_cases(res, must, corr=corr if use_driver else None)
+    pool = get_pool(ctx.thorough)
+    res.extra["workers"] = n_workers(ctx.thorough)
+    run_reg_cases(res, must, corr=corr if use_driver else None, pool=pool)
+    if use_driver:
+        corr.flush(res, on_mismatch)
     # a kernel formula that no longer matches the verified derivative / whose theorem no longer builds:
     # search for a concrete model whose Jacobian is wrong
     broken = set(suspects)
@@ -1758,16 +1864,24 @@ def run(ctx) -> Result:
             res.notes.append(f"failing-input search for kernel {k}: {'found' if found else 'nothing found'}")
     # ---- transformers
     tr_cases = [gen_tr_case(rng) for _ in range(n_tr)] + [gen_std_exact_case(rng) for _ in range(n_tr // 8)]
-    run_tr_cases(res, tr_cases, corr=corr if use_driver else None)
-    if use_driver:
-        corr.flush(res, on_mismatch)
-    # ---- regressors
-    k = 0
-    while k < n_reg and time.time() < ctx.deadline:
-        run_reg_cases(res, [gen_reg_case(rng) for _ in range(25)], corr=corr if use_driver else None)
+    for k in range(0, len(tr_cases), 400):
+        if time.time() > ctx.deadline:
+            res.count("deadline-reached:transformers")
+            break
+        run_tr_cases(res, tr_cases[k : k + 400], corr=corr if use_driver else None, pool=pool)
         if use_driver:
             corr.flush(res, on_mismatch)
-        k += 25
+    # ---- regressors
+    k = 0
+    batch = 25 * max(1, n_workers(ctx.thorough) // 2)
+    while k < n_reg and time.time() < ctx.deadline:
+        m = min(batch, n_reg - k)
+        run_reg_cases(res, [gen_reg_case(rng) for _ in range(m)], corr=corr if use_driver else None, pool=pool)
+        if use_driver:
+            corr.flush(res, on_mismatch)
+        k += m
+    if k < n_reg:
+        res.count("deadline-reached:regressors")
     return res
 
 
